@@ -152,14 +152,14 @@ fn by_n_jobs_body(s: &mut Src, k: usize) {
 harness!(c16_by_n_jobs_k2, 8, |s| { by_n_jobs_body(s, 2); });
 harness!(c16_by_n_jobs_k3, 8, |s| { by_n_jobs_body(s, 3); });
 
-// ---- Aggregate and Slice of two components (each a burst of two jobs, symbolic scalar costs)
+// ---- Aggregate and Slice of two components (bursts of two and of one job, symbolic scalar
+// costs; the job counts are concrete shapes because the per-component restriction sorts vectors)
 fn two_components(s: &mut Src) -> [RBF<SymCurve, Scalar>; 2] {
     let c1 = s.from(1, 7);
     let c2 = s.from(1, 7);
-    let second = SymCurve::any(s, 2, 3);
     [
         RBF::new(SymCurve::concrete(&[1, 1]), Scalar::new(Service::from(c1))),
-        RBF::new(second, Scalar::new(Service::from(c2))),
+        RBF::new(SymCurve::concrete(&[1]), Scalar::new(Service::from(c2))),
     ]
 }
 
@@ -193,7 +193,7 @@ fn aggregate_facts<G: AggregateRequestBound>(agg: &G, comps: &[RBF<SymCurve, Sca
 
 harness!(c16_slice, 8, |s| {
     let comps = two_components(s);
-    let d = s.bits(7);
+    let d = s.from(1, 7);
     let n = s.bits(3) as usize;
     let sl = Slice::of(&comps[..]);
     aggregate_facts(&sl, &comps, d, n);
@@ -201,7 +201,7 @@ harness!(c16_slice, 8, |s| {
 
 harness!(c16_aggregate, 8, |s| {
     let comps = two_components(s);
-    let d = s.bits(7);
+    let d = s.from(1, 7);
     let n = s.bits(3) as usize;
     let mut v = Vec::with_capacity(4);
     v.push(comps[0].clone());
